@@ -213,6 +213,13 @@ def run_case(case: dict) -> dict:
         missing = bind_input_aliases(obs, case)
         if missing:
             probe(res, "input_without_combinator", len(missing))
+        if "same-source-two-roles" in (case.get("exclude") or []):
+            from .c02 import same_source_two_roles
+
+            if same_source_two_roles(stmts):
+                res["status"] = "excluded"
+                res["excluded_by"] = "same-source-two-roles"
+                return res
         sites = crosstalk_sites(w, merge_groups(stmts, case["inputs"]),
                                 {n: k for k, v in obs.inputs.items() for n in v})
         if sites:
